@@ -19,6 +19,7 @@ sys.path.insert(0, HERE)
 import cbmcrun
 import common
 import docfacts
+import pml_tables
 
 TRANSFORM = os.path.join(common.BUILD, 'bin', 'uscxml-transform')
 
@@ -146,6 +147,39 @@ def verify_doc(args):
     return res
 
 
+def verify_pml(name, path, wd, base, defines, n, t):
+    """C05, Promela copy of the tables of the top machine (see pml_tables.py / harness_pml.c)"""
+    pfile = os.path.join(wd, base + '.pml')
+    required = name.startswith('corpus/') or name.startswith('generated/')   # datamodel-free charts: the Promela back end must accept them
+    try:
+        p = subprocess.run([TRANSFORM, '-tpml', '-i', path, '-o', pfile], capture_output=True, text=True, timeout=120, errors='replace')
+        ok = p.returncode == 0 and os.path.exists(pfile) and os.path.getsize(pfile) > 1000
+        why = 'rc=%s %s' % (p.returncode, (p.stderr or '')[-200:].replace('\n', ' '))
+    except subprocess.TimeoutExpired:
+        ok, why = False, 'timed out'
+    if not ok:
+        if required:
+            return {'name': base + '.pml', 'status': 'ok', 'reason': '', 'obligations': 1, 'discharged': 0, 'canaries_fired': 1, 'canaries_total': 1, 'time': {}, 'classes': {},
+                    'samples': [], 'tags': {'C05': [1, 0]}, 'checker_cmd': '%s -tpml -i %s' % (TRANSFORM, path),
+                    'failed': [{'property': 'emitted_pml.emit', 'tag': 'C05', 'location': {'file': path},
+                                'description': 'C05.pml.emit: the Promela back end emits a model for a chart without datamodel (%s)' % why}]}
+        return {'name': base + '.pml', 'status': 'skip', 'reason': 'Promela back end did not emit this document (%s); Promela tables not compared' % why, 'failed': [], 'time': {}}
+    try:
+        ctab, pinfo = pml_tables.extract(open(pfile, errors='replace').read())
+    except pml_tables.ExtractionError as e:
+        return _err(base + '.pml', 'extraction broken (Promela table block): %s' % e)
+    tfile = os.path.join(wd, base + '.pml_tables.h')
+    open(tfile, 'w').write(ctab)
+    K = max(n, t) + 4
+    job = cbmcrun.Job(base + '.pml', [os.path.join(HERE, 'harness_pml.c')], 'h_pml_tables', wd, dfcc=False, includes=[HERE],
+                      defines=dict(defines, PML_TABLES='"%s"' % tfile),
+                      cbmc_flags=['--drop-unused-functions', '--unwind', str(max(K, 260)), '--unwinding-assertions'],
+                      timeout=900, mem_gb=8, meta={'doc': name})
+    r = cbmcrun.verify(job)
+    r['pml_info'] = pinfo
+    return r
+
+
 def verify_machine(res, name, path, wd, base, cfile, ctext, index, root):
     try:
         facts, info = docfacts.facts_c(path, ctext, index, root)
@@ -184,6 +218,9 @@ def verify_machine(res, name, path, wd, base, cfile, ctext, index, root):
         res['step'] = {}
         return res
     res['tables'] = slim(rt)
+    if index == 0:
+        rp = verify_pml(name, path, wd, base, defines, n, t)
+        res['pml'] = slim(rp) if rp.get('status') != 'skip' else rp
     # ---- step (C04 Level D + C02)
     lines = ctext.split('\n')
     l_goto = find_line(lines, r'^\s*goto DEQUEUE_EVENT;')
